@@ -28,6 +28,7 @@ func init() {
 func runC09(w *World, r *Report) {
 	ruleOrder(w, r)
 	kc, kn := ruleCheckConstants(w, r)
+	ruleCheckAll(w, r)
 	ruleWidth(w, r, kc, kn)
 	ruleGrow(w, r)
 	ruleStackClass(w, r)
@@ -815,6 +816,12 @@ func n64(n int64) string {
 }
 
 var c09Witnesses = []Witness{
+	{Name: "check-skips-non-operator-children", Rule: "R-CHECKALL", Edits: []Edit{
+		{File: "compiler.go", Old: "\tfor _, child := range root.children {\n\t\tres := check(child)\n\t\tif res.err != nil {\n\t\t\treturn res\n\t\t}\n\t\tsize = size + res.size\n\t}\n", New: "\tfor _, child := range root.children {\n\t\tif typ := child.node.getNodeType(); typ != operator && typ != fastOperator {\n\t\t\tsize = size + 1\n\t\t\tcontinue\n\t\t}\n\n\t\tres := check(child)\n\t\tif res.err != nil {\n\t\t\treturn res\n\t\t}\n\t\tsize = size + res.size\n\t}\n"}}},
+	{Name: "check-leaves-loop-after-64-children", Rule: "R-CHECKALL", Edits: []Edit{
+		{File: "compiler.go", Old: "\tfor _, child := range root.children {\n\t\tres := check(child)\n\t\tif res.err != nil {\n\t\t\treturn res\n\t\t}\n\t\tsize = size + res.size\n\t}\n", New: "\tfor k, child := range root.children {\n\t\tif k >= 64 {\n\t\t\tbreak\n\t\t}\n\t\tres := check(child)\n\t\tif res.err != nil {\n\t\t\treturn res\n\t\t}\n\t\tsize = size + res.size\n\t}\n"}}},
+	{Name: "check-does-not-count-leaves", Rule: "R-CHECKALL", Edits: []Edit{
+		{File: "compiler.go", Old: "\tfor _, child := range root.children {\n\t\tres := check(child)\n\t\tif res.err != nil {\n\t\t\treturn res\n\t\t}\n\t\tsize = size + res.size\n\t}\n", New: "\tfor _, child := range root.children {\n\t\tres := check(child)\n\t\tif res.err != nil {\n\t\t\treturn res\n\t\t}\n\t\tif res.size > 1 {\n\t\t\tsize = size + res.size\n\t\t}\n\t}\n"}}},
 	{Name: "check-before-optimize", Rule: "R-ORDER", Edits: []Edit{
 		{File: "compiler.go", Old: "	optimize(conf, ast)\n\n	res := check(ast)\n	if res.err != nil {\n		return nil, res.err\n	}\n", New: "	res := check(ast)\n	if res.err != nil {\n		return nil, res.err\n	}\n\n	optimize(conf, ast)\n"}}},
 	{Name: "check-error-ignored-for-small-sources", Rule: "R-ORDER", Edits: []Edit{
@@ -838,4 +845,142 @@ var c09Witnesses = []Witness{
 	{Name: "benign-stack-classes-if-chain", Benign: true, Edits: []Edit{
 		{File: "engine.go", Old: "	switch {\n	case m <= 8:\n		os = make([]Value, 8)\n	case m <= 16:\n		os = make([]Value, 16)\n	default:\n		os = make([]Value, size)\n	}\n\n	var (\n		params []Value", New: "	if m <= 8 {\n		os = make([]Value, 8)\n	} else if m <= 16 {\n		os = make([]Value, 16)\n	} else {\n		os = make([]Value, size)\n	}\n\n	var (\n		params []Value"},
 		{File: "engine.go", Old: "	switch {\n	case m <= 8:\n		os = make([]Value, 8)\n	case m <= 16:\n		os = make([]Value, 16)\n	default:\n		os = make([]Value, size)\n	}\n\n	var (\n		param  []Value", New: "	if m <= 8 {\n		os = make([]Value, 8)\n	} else if m <= 16 {\n		os = make([]Value, 16)\n	} else {\n		os = make([]Value, size)\n	}\n\n	var (\n		param  []Value"}}},
+}
+
+// ruleCheckAll: the capacity check looks at the whole tree — check(root) calls itself on every child of root, on
+// every iteration of a loop over all of root.children, adds every child's size to its own, and reports success only
+// after that loop ran to its end. A child that is skipped (by kind, by position, by an early exit) hides an
+// over-limit operator or an uncounted subtree below it.
+func ruleCheckAll(w *World, r *Report) {
+	const rule = "R-CHECKALL"
+	r.Rule(rule, "check recurses into every child of every node and sums every child's size before it reports success", 2)
+	fn := w.MustFn(r, rule, "check")
+	if fn == nil || len(fn.Params) != 1 {
+		return
+	}
+	name := w.Name(fn)
+	root := fn.Params[0]
+	isChildren := func(v ssa.Value) bool {
+		base, ok := loadOfField(v, "astNode", "children")
+		return ok && (base == ssa.Value(root) || varRoot(base) == root)
+	}
+	var rec *ssa.Call
+	var hdr *ssa.BasicBlock
+	EachInstr(fn, func(in ssa.Instruction) {
+		c, ok := in.(*ssa.Call)
+		if !ok || c.Call.StaticCallee() != fn || len(c.Call.Args) != 1 {
+			return
+		}
+		addr, okl := isLoad(c.Call.Args[0])
+		if !okl {
+			return
+		}
+		ia, oki := addr.(*ssa.IndexAddr)
+		if !oki || !isChildren(ia.X) {
+			return
+		}
+		if h, okh := rangeIndexHeader(ia.Index, ia.X); okh {
+			rec, hdr = c, h
+		}
+	})
+	if rec == nil {
+		r.Fail(rule, w.Pos(fn.Pos()), name, "check(child) for child in root.children", "no recursive call on the elements of a loop over all of root.children")
+		return
+	}
+	every := true
+	for _, p := range hdr.Preds {
+		if hdr.Dominates(p) && !rec.Block().Dominates(p) {
+			every = false
+		}
+	}
+	r.Check(every, rule, w.InstrPos(rec), name, "check(child) on every iteration", "no child is passed over", "some children are not checked (the loop can go on to the next child without the recursive call): limits are not enforced below them and their nodes are not counted")
+	// the size of every child is added: the size phi's back edges all add the recursive result's size
+	sized := false
+	for _, in := range hdr.Instrs {
+		phi, ok := in.(*ssa.Phi)
+		if !ok {
+			break
+		}
+		if bt, okb := phi.Type().Underlying().(*types.Basic); !okb || bt.Info()&types.IsInteger == 0 {
+			continue
+		}
+		all, any := true, false
+		for k, e := range phi.Edges {
+			if !hdr.Dominates(hdr.Preds[k]) {
+				continue
+			}
+			bo, okB := e.(*ssa.BinOp)
+			if !okB || bo.Op != token.ADD || (bo.X != ssa.Value(phi) && bo.Y != ssa.Value(phi)) {
+				all = false
+				continue
+			}
+			other := bo.Y
+			if bo.Y == ssa.Value(phi) {
+				other = bo.X
+			}
+			// res.size of the recursive call of this iteration
+			fromRec := false
+			if base, okf := loadOfField(other, "checkRes", "size"); okf {
+				if al, isAl := base.(*ssa.Alloc); isAl {
+					for _, ref := range referrers(al) {
+						if st, okS := ref.(*ssa.Store); okS && st.Addr == ssa.Value(al) && st.Val == ssa.Value(rec) {
+							fromRec = true
+						}
+					}
+				}
+			}
+			if f, okF := other.(*ssa.Field); okF && f.X == ssa.Value(rec) {
+				fromRec = true
+			}
+			if !fromRec {
+				all = false
+			}
+			any = true
+		}
+		if all && any {
+			sized = true
+		}
+	}
+	r.Check(sized, rule, w.InstrPos(rec), name, "size += check(child).size on every iteration", "every child's node count is added", "the node count does not take in every child's subtree: a program over the node limit passes")
+	// the loop over the children is left early only with a failing child: every edge out of the loop other than
+	// the header's exit carries `check(child).err != nil`
+	isRecErr := func(x ssa.Value) bool {
+		if f, ok := x.(*ssa.Field); ok && f.X == ssa.Value(rec) {
+			return true
+		}
+		if base, ok := loadOfField(x, "checkRes", "err"); ok {
+			if al, isAl := base.(*ssa.Alloc); isAl {
+				for _, ref := range referrers(al) {
+					if st, okS := ref.(*ssa.Store); okS && st.Addr == ssa.Value(al) && st.Val == ssa.Value(rec) {
+						return true
+					}
+				}
+			}
+		}
+		return false
+	}
+	inLoop := map[*ssa.BasicBlock]bool{hdr: true}
+	for _, b := range fn.Blocks {
+		if hdr.Dominates(b) && reachable(b, hdr) {
+			inLoop[b] = true
+		}
+	}
+	whole := true
+	for b := range inLoop {
+		for k, sx := range b.Succs {
+			if inLoop[sx] || (b == hdr && k == 1) {
+				continue
+			}
+			failing := false
+			for _, f := range append(factsAtLocal(b), factsAtEdgeTo(b, sx)...) {
+				if x, isNil, ok := factIsNil(f); ok && !isNil && isRecErr(x) {
+					failing = true
+				}
+			}
+			if !failing {
+				whole = false
+			}
+		}
+	}
+	r.Check(whole, rule, w.InstrPos(rec), name, "end of the loop over the children", "success is reported only after every child was checked", "check can leave the loop over the children early with a success result")
 }
